@@ -254,14 +254,25 @@ def loomOffsets (table : Option (List (Str × Int))) (looms : List Str) : Option
     else if (es.map (·.1)).eraseDups.length ≠ es.length then none
     else es.foldlM (fun ls e => parseClkoffEntry ls e.1 e.2) l0
 
+/-- offset of a loom in the loom list (0 when absent) -/
+def offOf (ls : List (Str × Int)) (loom : Str) : Int :=
+  match ls.find? (·.1 == loom) with
+  | some l => l.2
+  | none => 0
+
+/-- the `stream_clkoff_set` loop of `init_offsets` -/
+def setOffsets (ls : List (Str × Int)) : List Raw → Option (List Stream)
+  | [] => some []
+  | r :: rs =>
+    match (Stream.load r.relpath r.evs).clkoffSet (offOf ls r.loom), setOffsets ls rs with
+    | some s, some ss => some (s :: ss)
+    | _, _ => none
+
 /-- `init_offsets`: each stream gets the offset of its loom. -/
 def applyOffsets (table : Option (List (Str × Int))) (rs : List Raw) : Option (List Stream) :=
   match loomOffsets table (rs.map (·.loom)) with
   | none => none
-  | some ls =>
-    rs.mapM fun r =>
-      let off := match ls.find? (·.1 == r.loom) with | some l => l.2 | none => 0
-      (Stream.load r.relpath r.evs).clkoffSet off
+  | some ls => setOffsets ls rs
 
 /-- `ovnidump DIR`: sort, no offsets, unsorted mode. -/
 def dumpTrace (found : List Raw) : Option (List Out) :=
